@@ -145,14 +145,10 @@ def check_one(ctx, src, scopes, config, case):
     if err is not None:
         ctx.violation('output does not lex: %s' % err, case)
         return
-    ocomments = [t for t in rout if t.kind == 'comment']
-    if len(ocomments) != min(2, len(hdr)):
-        ctx.violation('output contains %d comments, expected exactly the %d header comments' % (len(ocomments), min(2, len(hdr))), case)
+    cp = minify.comments_problem(rin, rout)
+    if cp:
+        ctx.violation(cp, case)
         return
-    for k, h in enumerate(hdr[:2]):
-        if ocomments[k].raw != h.raw:
-            ctx.violation('header comment %d changed: %r -> %r' % (k, h.raw[:60], ocomments[k].raw[:60]), case)
-            return
     # title / byline as PICO-8 and stats derive them
     if hdr:
         ctx.monitor('titles_compared')
